@@ -558,7 +558,7 @@ func muxMain(args []string) {
 				}
 				if refused != v.Refused || panicked != "" || retErr != "" || !invEqual(exp, obs, true) || !wireEqual(wireExpected(v.Wire), wire) {
 					mism++
-					out.put(map[string]interface{}{"kind": "reg", "ns": ns, "vector": v, "refused": refused,
+					out.put(map[string]interface{}{"kind": "reg", "ns": ns, "vector": v, "refused": refused, "xml": renderEl(v.El, ns),
 						"observed": mAlt{Inv: r.log, Wire: wire}, "error": retErr, "panic": panicked})
 				}
 			}
